@@ -63,7 +63,9 @@ class _:
     invariant = {
         # C13: timers referenced by the consumer are pending ones (a fired / cancelled timer is not kept)
         "retry-live": "self._start_d is None or self._stopping or self._retry_call is None or active(self._retry_call)",
-        "commit-call-live": "self._start_d is None or self._stopping or self._commit_call is None or active(self._commit_call)",
+        # (also while stopped: a cancelled timer kept across stop() would be cancelled a second time by the stop() that
+        # follows a restart - defect 20e304a)
+        "commit-call-live": "self._stopping or self._commit_call is None or active(self._commit_call)",
         "stopping-implies-started": "not self._stopping or self._start_d is not None",
         # Deferreds of different roles are different objects (each is created fresh for its role)
         "deferred-roles-apart": DISTINCT,
@@ -249,7 +251,9 @@ method("stop", "(%s) -> Optional[int]" % SELF, props=["C13"], no_guarantee=True,
                        inv_until={"retry-timer-pending": ("self._retry_call is None or active(self._retry_call)", "self._retry_call"),
                                   "commit-timer-pending": ("self._commit_call is None or active(self._commit_call)", "self._commit_call")},
                        inv_from={"no-request": ("self._request_d is None", "self._request_d"),
-                                 "no-commit-request": ("self._commit_req is None", "self._commit_req")}),
+                                 "no-commit-request": ("self._commit_req is None", "self._commit_req"),
+                                 # once stop() has cancelled AND dropped the commit retry timer, whatever is there is pending
+                                 "commit-timer-dropped": ("self._commit_call is None or active(self._commit_call)", "self._commit_call")}),
        loops={"while#1": dict(index="n", inv=["self._stopping", "self._start_d is not None", "self._start_d == old(self._start_d)",
                                                "self._commit_call is None or active(self._commit_call)", "self._request_d is None"])},
        checkpoints={"fire:callback#1": {"stopped-before-notifying[C13]": "self._start_d is None and not self._stopping and self._request_d is None"}},
@@ -342,3 +346,24 @@ method("_auto_commit", "(%s, by_count: bool = False) -> None" % SELF, props=["C0
                                           "and self._last_processed_offset is not None and self.consumer_group",
            "count-threshold[C03]": "implies(by_count, self.auto_commit_every_n and (self._last_committed_offset is None or "
                                    "self._last_processed_offset - self._last_committed_offset >= self.auto_commit_every_n))"}})
+
+
+# ---- small callbacks: entry points that Twisted invokes; under contract so that the object invariant and the guarantees
+# (what every other unit relies on across excursions) are proved for them too, not assumed -------------------------------
+method("_retry_auto_commit", "(%s, result: Any, by_count: bool = False) -> Any" % SELF, props=["C03", "C13"],
+       notes="hooked behind a commit that was in progress: tries the automatic commit again and passes the result on")
+
+method("_handle_auto_commit_error", "(%s, failure: Ref_Failure) -> None" % SELF, props=["C03", "C13"],
+       checkpoints={"fire:errback#1": {"reported-once[C13]": "self._start_d is not None and not called(self._start_d)"}})
+
+method("_commit_timer_failed", "(%s, fail: Ref_Failure) -> None" % SELF, props=["C13"],
+       inv_exempt_at_entry=["looper-running"],
+       # runs when the LoopingCall's function raised: the looper has stopped itself and is still the consumer's looper
+       requires=["self._commit_looper is not None", "not running(self._commit_looper)", "self.auto_commit_every_s is not None"])
+
+method("_commit_timer_stopped", "(%s, lCall: Ref_LoopingCall) -> None" % SELF, props=["C13"],
+       inv_exempt_at_entry=["looper-running"],
+       # the looper that has just been stopped is the only one that may be found not running
+       requires=["self._commit_looper is None or self._commit_looper == lCall or running(self._commit_looper)"],
+       ensures={"own-looper-dropped[C13]": "implies(old(self._commit_looper) is not None and old(self._commit_looper) == lCall, "
+                                            "self._commit_looper is None)"})
